@@ -20,7 +20,7 @@ import (
 func init() {
 	Register(&Rule{
 		Name:  "R-ACCEPT-COMMIT",
-		Props: []string{"C09"},
+		Props: []string{"C09", "C08"},
 		Min:   6,
 		Doc: "accept-side commitment of the receiver (runTransfer, acceptExtraConns and their closures): for every transfer.Conn obtained from QUICTransport.Accept / QUICTransport.Dial, or received as a closure parameter or captured by a nested closure: " +
 			"(commit-after-auth) every hand-over of it (channel send, return, append, store into an outer variable) is reachable only over the nil edge of authenticateTransport(.., that connection, .., receiver role); " +
